@@ -53,10 +53,13 @@ type Exec struct {
 	callees    map[string]bool
 	onlyPost   bool
 	usedLemmas map[string]bool
+	ghosts     map[string]Value
+	roundCache map[int]*Term
+	roundFacts map[int][]*Term
 }
 
 func newExec(w *World, name string, d *Decl) *Exec {
-	return &Exec{w: w, fnName: name, decl: d, kindN: map[string]int{}, summarised: map[string]bool{}, external: map[string]bool{}, loopInfo: map[ast.Stmt]int{}, callees: map[string]bool{}, usedLemmas: map[string]bool{}}
+	return &Exec{w: w, fnName: name, decl: d, kindN: map[string]int{}, summarised: map[string]bool{}, external: map[string]bool{}, loopInfo: map[ast.Stmt]int{}, callees: map[string]bool{}, usedLemmas: map[string]bool{}, ghosts: map[string]Value{}}
 }
 
 func (x *Exec) top() *frame { return x.frames[len(x.frames)-1] }
@@ -69,7 +72,7 @@ func (x *Exec) pos(n ast.Node) token.Position { return x.w.Fset.Position(n.Pos()
 
 // oblige records a proof obligation hyps(st) |- goal.
 func (x *Exec) oblige(kind string, st *State, goal *Term, at ast.Node, clause string) {
-	if x.specMode > 0 && kind != "assert" && !strings.HasPrefix(kind, "post") && kind != "pre" {
+	if x.specMode > 0 && kind != "assert" && !strings.HasPrefix(kind, "post") && kind != "pre" && kind != "lemma-pre" {
 		return
 	}
 	if goal.isTrue() || st.dead() {
@@ -451,7 +454,16 @@ func (x *Exec) applyHints(s ast.Stmt, st *State) {
 	fd := x.top().fn
 	pk := x.pkg()
 	for _, c := range x.decl.Clauses {
-		if (c.Kind != "hint" && c.Kind != "cut") || c.FnName == "" {
+		switch c.Kind {
+		case "hint", "cut", "ghost":
+		case "use":
+			if c.SplitVar == "" {
+				continue
+			}
+		default:
+			continue
+		}
+		if c.FnName == "" {
 			continue
 		}
 		if c.Kind == "cut" && x.onlyPost {
@@ -461,30 +473,86 @@ func (x *Exec) applyHints(s ast.Stmt, st *State) {
 		if anchorStmt(fd, c.SplitVar) != s {
 			continue
 		}
-		cf := pk.Funcs[c.FnName]
-		bindArgs := func() []Value {
+		bindArgs := func(fn string) []Value {
+			cf := pk.Funcs[fn]
 			var args []Value
 			for _, f := range cf.Type.Params.List {
 				for _, n := range f.Names {
+					if g, ok := x.ghostValue(n.Name); ok {
+						args = append(args, g)
+						continue
+					}
 					args = append(args, x.lookupTopLevelVar(n.Name, fd, st))
 				}
 			}
 			return args
 		}
-		t := x.evalClause(pk, c, bindArgs(), st)
+		switch c.Kind {
+		case "ghost":
+			x.ghosts[c.SplitLo] = x.evalClauseV(pk, c, bindArgs(c.FnName), st)
+			continue
+		case "use":
+			rc := &Clause{Kind: "use", FnName: c.FnName + "_req", Text: c.Text}
+			sm := x.specMode
+			x.specMode = 0
+			x.oblige("lemma-pre", st, x.evalClause(pk, rc, bindArgs(rc.FnName), st), s, "requires of lemma instance "+c.Text)
+			x.specMode = sm
+			st.assume(x.evalClause(pk, c, bindArgs(c.FnName), st))
+			x.usedLemmas[strings.TrimSpace(c.Text[:strings.Index(c.Text, "(")])] = true
+			continue
+		}
+		t := x.evalClause(pk, c, bindArgs(c.FnName), st)
 		sm := x.specMode
 		x.specMode = 0
 		x.oblige("hint", st, t, s, c.Kind+" "+c.SplitVar+": "+c.Text)
 		x.specMode = sm
 		if c.Kind == "cut" {
 			sc := pk.Info.Scopes[fd.Type]
-			if obj, ok := sc.Lookup(c.SplitVar).(*types.Var); ok {
-				st.vars[obj] = x.havoc(c.SplitVar, st.vars[obj], obj.Type(), st)
-				t = x.evalClause(pk, c, bindArgs(), st)
+			vn := c.SplitVar
+			if k := strings.Index(vn, "#"); k >= 0 {
+				vn = vn[:k]
+			}
+			if obj, ok := sc.Lookup(vn).(*types.Var); ok {
+				st.vars[obj] = x.havoc(vn, st.vars[obj], obj.Type(), st)
+				t = x.evalClause(pk, c, bindArgs(c.FnName), st)
 			}
 		}
 		st.assume(t)
 	}
+}
+
+// ghostValue: value of a declared ghost variable (zero of its type before its anchor is reached)
+func (x *Exec) ghostValue(name string) (Value, bool) {
+	if x.decl == nil {
+		return nil, false
+	}
+	for _, c := range x.decl.Clauses {
+		if c.Kind == "ghost" && c.SplitLo == name {
+			if v, ok := x.ghosts[name]; ok {
+				return v, true
+			}
+			switch c.SplitHi {
+			case "int":
+				return IntV{mkInt(0)}, true
+			case "bool":
+				return BoolV{tFalse}, true
+			default:
+				return FloatV{mkRat(new(big.Rat))}, true
+			}
+		}
+	}
+	return nil, false
+}
+
+// evalClauseV: like evalClause, but returns the value (ghost definitions may be int, bool or float64)
+func (x *Exec) evalClauseV(pk *Pkg, c *Clause, args []Value, st *State) Value {
+	fd := pk.Funcs[c.FnName]
+	if fd == nil {
+		unsup("clause function %s missing", c.FnName)
+	}
+	x.specMode++
+	defer func() { x.specMode-- }()
+	return x.inlineCall(pk, fd, args, st)
 }
 
 func (x *Exec) lookupTopLevelVar(name string, fd *ast.FuncDecl, st *State) Value {
@@ -1525,7 +1593,9 @@ func (x *Exec) binop(op token.Token, l, r Value, opndT types.Type, st *State, at
 		case token.ADD:
 			return FloatV{x.fround(mkAdd(at2, bt), st, at)}
 		case token.SUB:
-			return FloatV{x.fround(mkSub(at2, bt), st, at)}
+			r := x.fround(mkSub(at2, bt), st, at)
+			x.sterbenz(at2, bt, r, st)
+			return FloatV{r}
 		case token.MUL:
 			return FloatV{x.fround(mkMul(at2, bt), st, at)}
 		case token.QUO:
